@@ -35,7 +35,8 @@ AllDistinct(g) == \A i, j \in 1..NumVar(g) : i # j => ComboAt(g, i) # ComboAt(g,
 \* fx : sequence over parameters of a value id, or 0 = "not fixed"
 Matches(c, fx) == \A p \in 1..Len(fx) : fx[p] = 0 \/ c[p] = fx[p]
 Lookup(g, fx) == {i \in 1..NumVar(g) : Matches(ComboAt(g, i), fx)}
-FixChoices(g) == IF Len(g) = 1 THEN {<<a>> : a \in {0} \cup {g[1][k] : k \in 1..Len(g[1])}}
+FixChoices(g) == IF Len(g) = 0 THEN {<<>>}        \* no unpacked parameter: the empty assignment selects the only variation
+                 ELSE IF Len(g) = 1 THEN {<<a>> : a \in {0} \cup {g[1][k] : k \in 1..Len(g[1])}}
                  ELSE IF Len(g) = 2 THEN {<<a, b>> : a \in {0} \cup {g[1][k] : k \in 1..Len(g[1])},
                                                      b \in {0} \cup {g[2][k] : k \in 1..Len(g[2])}}
                  ELSE {<<a, b, c>> : a \in {0} \cup {g[1][k] : k \in 1..Len(g[1])},
@@ -59,5 +60,17 @@ CombineExp(ga, gb) == LET u == Union(ga, gb) IN
 CombineLaw(ga, gb) == LET e == CombineExp(ga, gb) IN
    /\ \A i \in 1..NumVar(ga) : Cardinality({k \in DOMAIN e : e[k].a = i}) = 1
    /\ \A i \in 1..NumVar(gb) : Cardinality({k \in DOMAIN e : e[k].b = i}) = 1
+
+\* three operands: combine(combine(a, b), c) and combine(a, combine(b, c)) must both give, per combination of the
+\* union of the three grids, the merge of the operands' results for that combination in the order a, b, c
+CombineExp3(ga, gb, gc) == LET u == Union(Union(ga, gb), gc) IN
+   [i \in 1..NumVar(u) |-> LET c == ComboAt(u, i) IN
+       [combo |-> c, a |-> IF InGrid(ga, c) THEN IndexOf(ga, c) ELSE 0, b |-> IF InGrid(gb, c) THEN IndexOf(gb, c) ELSE 0,
+        c |-> IF InGrid(gc, c) THEN IndexOf(gc, c) ELSE 0]]
+CombineLaw3(ga, gb, gc) == LET e == CombineExp3(ga, gb, gc) IN
+   /\ Union(Union(ga, gb), gc) = Union(ga, Union(gb, gc))
+   /\ \A i \in 1..NumVar(ga) : Cardinality({k \in DOMAIN e : e[k].a = i}) = 1
+   /\ \A i \in 1..NumVar(gb) : Cardinality({k \in DOMAIN e : e[k].b = i}) = 1
+   /\ \A i \in 1..NumVar(gc) : Cardinality({k \in DOMAIN e : e[k].c = i}) = 1
 
 =============================================================================
